@@ -429,3 +429,17 @@ Proof.
   destruct (nw_steps_ops depth _ _ (round_nw depth s D I)) as [ops2 E].
   destruct R as [ops1 ->]. exists (ops1 ++ ops2). rewrite run_ops_app. exact E.
 Qed.
+
+(* "then goes quiet": from round mu(s)+3 on, no datagram is ever sent again (until the next write) *)
+Theorem eventually_silent depth s n :
+  0 <= depth -> reachable depth s -> (mu s + 2 <= n)%nat ->
+  round_sent depth (iter_round depth n s) = (iter_round depth n s, [])
+  /\ covered (iter_round depth n s) = true /\ acked (iter_round depth n s) = true.
+Proof.
+  intros D R Hn. pose proof (reachable_Inv depth s D R) as I.
+  destruct (settle_point depth s D I) as (Iq & Zq & Aq & Cq & _). cbn zeta in *.
+  set (q := iter_round depth (mu s + 2) s) in *.
+  assert (E : iter_round depth n s = q).
+  { replace n with ((mu s + 2) + (n - (mu s + 2)))%nat by lia. rewrite iter_round_add. fold q. apply iter_quiet; assumption. }
+  rewrite E. split; [apply quiet; assumption|]. split; [apply mu_zero_covered; assumption | exact Aq].
+Qed.
